@@ -388,7 +388,7 @@ func execKeyring(op string, args []string) string {
 			return "none"
 		}
 		return "ok:" + hx(k)
-	case "direct_fetch": // now reqName direct(E|response) notary(E|_|responses) : DirectKeyFetcher on a scripted KeyClient
+	case "direct_fetch", "direct_history": // now reqName direct(E|response) notary(E|_|responses) : DirectKeyFetcher on a scripted KeyClient
 		now, _ := strconv.ParseInt(args[0], 10, 64)
 		cl := &krClient{}
 		if l, fail := krParseResponses(args[2]); !fail && len(l) == 1 {
@@ -402,7 +402,8 @@ func execKeyring(op string, args []string) string {
 			return "err:fetch"
 		}
 		return "ok:" + krShowStored(now, m)
-	case "perspective_fetch": // now notaryName knownKeys(keyid:pub|…) responses(E|_|…)
+	case "perspective_fetch", "perspective_history": // now notaryName knownKeys(keyid:pub|…) responses(E|_|…)
+		// (perspective_history: the same operation; the generator's key-rotation histories, every document acceptable)
 		now, _ := strconv.ParseInt(args[0], 10, 64)
 		cl := &krClient{}
 		cl.notary, cl.notaryErr = krParseResponses(args[3])
@@ -857,6 +858,10 @@ func genKeyring(o *Out, tier string, r *Rng) {
 
 		// --- key responses: CheckKeys / PublicKey / mapServerKeysToPublicKeyLookupResult ---
 		genServerKeysOps(o, r, round)
+		// --- a notary answering with SEVERAL documents of one server (its key-rotation history), in either order ---
+		if tier == "thorough" || round%2 == 0 {
+			genKeyHistoryOps(o, r, round)
+		}
 	}
 }
 
@@ -1269,4 +1274,157 @@ func genServerKeysOps(o *Out, r *Rng, round int) {
 	res = Guard(func() string { return execKeyring("perspective_fetch", pargs) })
 	o.Emit("perspective_fetch", append(pargs, res), res)
 	o.Count("perspective_fetch." + strings.SplitN(res, ":", 2)[0] + map[bool]string{true: ".nothing", false: ""}[res == "ok:_"])
+}
+
+// ---- key-rotation histories: several documents of ONE server in one notary answer ----
+
+type krVK struct {
+	id string
+	k  krKey
+}
+type krOK struct {
+	id string
+	k  krKey
+	ex kts
+}
+
+// krCraftResponse builds exactly the key response described: every verify key signs the response, and so does the
+// notary (under the key ID the fetcher is configured with) when one is given.
+func krCraftResponse(n0 int64, name string, vu kts, vks []krVK, oks []krOK, notary *krNotary) krResponse {
+	vm := map[string]interface{}{}
+	for _, e := range vks {
+		vm[e.id] = map[string]interface{}{"key": base64.RawStdEncoding.EncodeToString(e.k.pub)}
+	}
+	om := map[string]interface{}{}
+	for _, e := range oks {
+		om[e.id] = map[string]interface{}{"key": base64.RawStdEncoding.EncodeToString(e.k.pub), "expired_ts": e.ex.resolve(n0)}
+	}
+	raw, err := json.Marshal(map[string]interface{}{"server_name": name, "valid_until_ts": vu.resolve(n0), "verify_keys": vm, "old_verify_keys": om})
+	if err != nil {
+		panic("harness: marshal key response")
+	}
+	for _, e := range vks {
+		if raw, err = gmsl.SignJSON(name, gmsl.KeyID(e.id), e.k.priv, raw); err != nil {
+			panic("harness: sign key response: " + err.Error())
+		}
+	}
+	res := krResponse{name: name, vu: vu, vkArg: "_", okArg: "_", nsArg: "_"}
+	if notary != nil {
+		if raw, err = gmsl.SignJSON(notary.name, "ed25519:n1", notary.keys["ed25519:n1"].priv, raw); err != nil {
+			panic("harness: notary signature: " + err.Error())
+		}
+		res.nsArg = hx([]byte("ed25519:n1")) + ":1:1"
+	}
+	if _, res.parsed = krParseServerKeysRaw(raw); !res.parsed {
+		panic("harness: crafted key response does not decode")
+	}
+	res.raw = raw
+	var p []string
+	for _, e := range vks {
+		if gmsl.VerifyJSON(name, gmsl.KeyID(e.id), e.k.pub, raw) != nil {
+			panic("harness: crafted key response is not self-signed")
+		}
+		res.goodEd++
+		p = append(p, hx([]byte(e.id))+":"+hx(e.k.pub)+":1")
+	}
+	if len(p) > 0 {
+		res.vkArg = strings.Join(p, "|")
+	}
+	p = nil
+	for _, e := range oks {
+		p = append(p, hx([]byte(e.id))+":"+hx(e.k.pub)+":"+e.ex.String())
+		res.olds = append(res.olds, krOld{e.id, e.ex})
+	}
+	if len(p) > 0 {
+		res.okArg = strings.Join(p, "|")
+	}
+	return res
+}
+
+// genKeyHistoryOps: a server rotated its signing key once or twice; the notary holds one document per stored response
+// and answers with all of them.  Document i lists key i under verify_keys and the keys before it under
+// old_verify_keys with their expired_ts (in the past); every document is self-signed, signed by the notary and has a
+// valid_until_ts in the future (the older ones' validity period has not run out yet), so each of them is acceptable on
+// its own.  The answer lists them oldest first, newest first, or shuffled, sometimes with another server's document
+// in between.  What the fetcher returns for a key ID that moved from verify_keys to old_verify_keys decides whether a
+// signature made with the retired key still verifies (keyring.go: PerspectiveKeyFetcher.FetchKeys,
+// fetchNotaryKeysForServer, mapServerKeysToPublicKeyLookupResult).
+func genKeyHistoryOps(o *Out, r *Rng, round int) {
+	n0 := time.Now().UnixMilli()
+	n := strconv.FormatInt(n0, 10)
+	name := Pick(r, []string{"a.example", "a.example", "b.example:8448"})
+	nk := r.krKey()
+	notary := &krNotary{name: "notary.example", keys: map[string]krKey{"ed25519:n1": nk}, extra: r.krKey()}
+	gens := 2 + r.Intn(2)
+	ids := []string{"ed25519:1", "ed25519:2", "ed25519:3"}
+	keys := []krKey{r.krKey(), r.krKey(), r.krKey()}
+	retired := make([]kts, gens) // expired_ts of key i (i < gens-1), increasing with i
+	for i := 0; i < gens-1; i++ {
+		retired[i] = krRelTs(-krDay*int64(gens-1-i) + Pick(r, []int64{0, krHour, -krHour, 12 * krHour}))
+		if i == gens-2 && r.Chance(50) {
+			retired[i] = Pick(r, []kts{krRelTs(-krHour), krRelTs(-1), krRelTs(-10 * krMin)})
+		}
+	}
+	build := func(withNotary bool) []krResponse {
+		var docs []krResponse
+		for i := 0; i < gens; i++ {
+			vu := Pick(r, []kts{krRelTs(krHour), krRelTs(krDay), krRelTs(2 * krDay)})
+			if i == gens-1 {
+				vu = Pick(r, []kts{krRelTs(krDay), krRelTs(2 * krDay), krRelTs(6 * krDay)})
+			}
+			var oks []krOK
+			for j := 0; j < i; j++ {
+				if j == i-1 || r.Chance(70) {
+					oks = append(oks, krOK{ids[j], keys[j], retired[j]})
+				}
+			}
+			nt := notary
+			if !withNotary {
+				nt = nil
+			}
+			docs = append(docs, krCraftResponse(n0, name, vu, []krVK{{ids[i], keys[i]}}, oks, nt))
+		}
+		return docs
+	}
+	order := func(docs []krResponse, withNotary bool) ([]krResponse, string) {
+		lab := "oldest-first"
+		switch r.Intn(3) {
+		case 1:
+			lab = "newest-first"
+			for i, j := 0, len(docs)-1; i < j; i, j = i+1, j-1 {
+				docs[i], docs[j] = docs[j], docs[i]
+			}
+		case 2:
+			lab = "shuffled"
+			for i := len(docs) - 1; i > 0; i-- {
+				j := r.Intn(i + 1)
+				docs[i], docs[j] = docs[j], docs[i]
+			}
+		}
+		if r.Chance(25) {
+			nt := notary
+			if !withNotary {
+				nt = nil
+			}
+			other := krCraftResponse(n0, "z.example", krRelTs(krDay), []krVK{{"ed25519:1", r.krKey()}}, nil, nt)
+			at := r.Intn(len(docs) + 1)
+			docs = append(docs[:at], append([]krResponse{other}, docs[at:]...)...)
+		}
+		return docs, lab
+	}
+	// PerspectiveKeyFetcher
+	docs, lab := order(build(true), true)
+	pargs := []string{n, hx([]byte(notary.name)), hx([]byte("ed25519:n1")) + ":" + hx(nk.pub), krJoinResponses(docs)}
+	res := Guard(func() string { return execKeyring("perspective_history", pargs) })
+	o.Emit("perspective_history", append(pargs, res), res)
+	o.Count("perspective_history." + lab + "." + strconv.Itoa(gens) + "-documents")
+	if round < 4 {
+		o.Sample("perspective_history (" + lab + ") " + string(docs[0].raw) + " ; " + string(docs[len(docs)-1].raw) + " -> " + res)
+	}
+	// DirectKeyFetcher whose direct request fails: the notary fallback takes the first document naming the server
+	docs, lab = order(build(false), false)
+	dargs := []string{n, hx([]byte(name)), "E", krJoinResponses(docs)}
+	res = Guard(func() string { return execKeyring("direct_history", dargs) })
+	o.Emit("direct_history", append(dargs, res), res)
+	o.Count("direct_history." + lab)
 }
